@@ -217,6 +217,11 @@ def _bound(scope):
     return [n for n in names if n not in glob]
 
 
+def fn_scope_locals(fn):
+    """names bound in the function's own scope (not those of its lambdas / comprehensions / nested defs)"""
+    return set(_bound(fn))
+
+
 def scoped_rename(fn, mapper):
     """rewrite, in place, every occurrence of a locally bound name of fn; mapper(scope index, name) -> new name. Lambdas, comprehensions
     and nested defs are scopes of their own (numbered in traversal order), so a name reused in a lambda and in the function body is two
@@ -421,8 +426,12 @@ def normalise_repo(trees, use_reference=True, stats=None):
                     r = ref[c[0]] if len(c) == 1 else None
                 if r is None:
                     continue
+                from . import webs
+                nsplit = webs.split(fn, fn_scope_locals(fn))
                 h, order = blind(fn)
                 fn._drift = (h != r['blind'])
+                if h != r['blind'] and nsplit:
+                    webs.merge(fn)
                 if h == r['blind']:
                     if order != r['names'] and [len(o) for o in order] == [len(o) for o in r['names']]:
                         mapping = {i: {a: b for a, b in zip(o, ro) if a != b} for i, (o, ro) in enumerate(zip(order, r['names']))}
@@ -432,6 +441,7 @@ def normalise_repo(trees, use_reference=True, stats=None):
                         rename_locals(fn, {i: {'\0' + b: b for b in m.values()} for i, m in mapping.items()})
                         if stats is not None:
                             stats.append((key, 'alpha %d' % sum(len(m) for m in mapping.values())))
+                    webs.merge(fn)
                 else:
                     vote_rename(fn, r, stats, key)
     for tree in trees.values():
@@ -442,9 +452,13 @@ def make_reference(trees):
     out = {}
     for mod, tree in trees.items():
         for key, fn in functions_of(tree, mod):
-            h, order = blind(fn)
+            from . import webs
             loc = set(local_names(fn))
-            out[key] = dict(blind=h, names=order, stmts=[list(stmt_blind(s, loc)) for s in statements(fn)])
+            stm = [list(stmt_blind(s, loc)) for s in statements(fn)]
+            f2 = copy.deepcopy(fn)
+            webs.split(f2, fn_scope_locals(f2))
+            h, order = blind(f2)
+            out[key] = dict(blind=h, names=order, stmts=stm)
     return dict(functions=out)
 
 
